@@ -75,18 +75,100 @@ def tmap(f, t):
     return f((t[0],) + tuple(go(x) for x in t[1:]))
 
 
+FULL = ("sl", ("c", None), ("c", None), ("c", None))
+BV_ITER = {}          # binder id -> the term it iterates over (element iteration only)
+LEN = ("s", "len")
+RANGE = ("s", "range")
+
+
+def mklen(a):
+    return simp1(("call", LEN, (a,), ()))
+
+
+def is2d(t):
+    """terms known to denote 2-d numpy arrays (numpy facts the normal form relies on)"""
+    if t[0] == "call" and t[1] == ("s", "from_nested_to_2d_array") \
+            and ("kw", "return_numpy", ("c", True)) in t[3]:
+        return True
+    if t[0] == "call" and t[1] == ("a", ("s", "np"), "zeros") and len(t[2]) >= 1 \
+            and t[2][0][0] == "t" and len(t[2][0][1]) == 2:
+        return True
+    if t[0] in ("fill", "set"):
+        return is2d(t[1])
+    if t[0] == "call" and t[1][0] == "a" and t[1][2] == "squeeze" and t[2] == (("c", 1),) \
+            and not t[3]:
+        x = t[1][1]                 # check_X(.., coerce_to_numpy=True) is 3-d
+        return x[0] == "call" and x[1] == ("s", "check_X") \
+            and ("kw", "coerce_to_numpy", ("c", True)) in x[3]
+    return False
+
+
 def simp1(x):
-    """local simplifications: (a, b)[k] -> component"""
+    """local simplifications (tuple projection; numpy / sequence facts about lengths and rows)"""
     if x[0] == "i" and is_term(x[1]) and x[1][0] in ("t", "l") and x[2][0] == "c" \
             and isinstance(x[2][1], int) and not isinstance(x[2][1], bool) \
             and -len(x[1][1]) <= x[2][1] < len(x[1][1]):
         return x[1][1][x[2][1]]
-    # len(x.copy()) -> len(x)
-    if x[0] == "call" and x[1] == ("s", "len") and len(x[2]) == 1 and not x[3]:
+    # A[k, :] -> A[k]
+    if x[0] == "i" and x[2][0] == "t" and len(x[2][1]) == 2 and x[2][1][1] == FULL \
+            and x[2][1][0][0] != "sl":
+        return ("i", x[1], x[2][1][0])
+    # A.shape[0] -> len(A)
+    if x[0] == "i" and x[2] == ("c", 0) and x[1][0] == "a" and x[1][2] == "shape":
+        return mklen(x[1][1])
+    if x[0] == "call" and x[1] == LEN and len(x[2]) == 1 and not x[3]:
         a = x[2][0]
+        # len(x.copy()) -> len(x)
         if a[0] == "call" and a[1][0] == "a" and a[1][2] == "copy" and not a[2] and not a[3]:
-            return ("call", x[1], (a[1][1],), ())
+            return mklen(a[1][1])
+        # filling / assigning rows keeps the length; len(np.zeros((n, ..))) = n; len(range(n)) = n
+        if a[0] in ("fill", "set"):
+            return mklen(a[1])
+        if a[0] == "call" and a[1] == ("a", ("s", "np"), "zeros") and len(a[2]) >= 1 \
+                and a[2][0][0] == "t" and len(a[2][0][1]) >= 1:
+            return a[2][0][1][0]
+        if a[0] == "call" and a[1] == RANGE and len(a[2]) == 1 and not a[3]:
+            return a[2][0]
+        if a[0] == "comp" and not a[4]:
+            return mklen(a[3])
+        if a[0] in ("t", "l"):
+            return ("c", len(a[1]))
     return x
+
+
+def is_len_of(n, a):
+    """n is the number of elements iterating over a yields"""
+    if n == mklen(a):
+        return True
+    parent = None
+    if a[0] == "bv" and a[1] in BV_ITER:
+        parent = BV_ITER[a[1]]
+    elif a[0] == "i" and a[2][0] not in ("sl", "t"):
+        parent = a[1]
+    return parent is not None and is2d(parent) and n == ("i", ("a", parent, "shape"), ("c", 1))
+
+
+def to_element(bid, it, parts):
+    """for i in range(len(A)) using i only as A[i]  ->  for x in A   (A a sequence / ndarray)"""
+    if not (it[0] == "call" and it[1] == RANGE and len(it[2]) == 1 and not it[3]):
+        return it, parts
+    me = ("bv", bid)
+    bases = set()
+    for p in parts:
+        for x in walk(p):
+            if x[0] == "i" and x[2] == me:
+                bases.add(x[1])
+    if len(bases) != 1:
+        return it, parts
+    a = bases.pop()
+    if has(a, lambda x: x == me) or not is_len_of(it[2][0], a):
+        return it, parts
+    mark = ("bv", -bid)
+    new = [subst(p, {("i", a, me): mark}) for p in parts]
+    if any(has(p, lambda x: x == me) for p in new):
+        return it, parts                      # the index is used for something else as well
+    BV_ITER[bid] = a
+    return a, [subst(p, {mark: me}) for p in new]
 
 
 def subst(t, mapping):
@@ -104,6 +186,10 @@ def subst(t, mapping):
 def mkcomp(bid, elt, it, conds):
     """[elt for v in it if conds]; a comprehension over a comprehension is fused:
        [f(y) for y in [g(x) for x in xs]] = [f(g(x)) for x in xs]"""
+    it, parts = to_element(bid, it, [elt] + list(conds))
+    elt, conds = parts[0], tuple(parts[1:])
+    if it[0] != "call" or it[1] != RANGE:
+        BV_ITER.setdefault(bid, it)
     if it[0] == "comp" and not it[4]:
         m = {("bv", bid): it[2]}
         return mkcomp(it[1], subst(elt, m), it[3], tuple(subst(c, m) for c in conds))
@@ -161,6 +247,12 @@ def literals(c, pol):
 
 
 POISON = ("poison",)
+METHOD_SIGS = {"fillna": ["value", "method"], "interpolate": ["method"],
+               "replace": ["to_replace", "value"]}
+NP_SIGS = {"full": ["shape", "fill_value", "dtype"], "zeros": ["shape", "dtype"],
+           "pad": ["array", "pad_width", "mode"], "linspace": ["start", "stop", "num"],
+           "array_split": ["ary", "indices_or_sections", "axis"], "asarray": ["a", "dtype"],
+           "array": ["object", "dtype"], "arange": []}
 
 
 class Closure:
@@ -248,15 +340,20 @@ class Ev:
         return out
 
     # ---------------------------------------------------------------- statements
+    # outcome trees: ("fall", env, extra) | ("cont", env) | ("ret", term, env, extra) | ("raise",)
+    #                | ("node", cond, t, f).  `extra` = guard literals established on the way
+    #                (e.g. by `if bad: raise`), in force for whatever runs after the block.
     def block(self, stmts, env):
         env = dict(env)
+        n_start = len(self.path)
         for idx, st in enumerate(stmts):
             if isinstance(st, ast.Expr) and isinstance(st.value, ast.Constant):
                 continue                                    # docstring
             if isinstance(st, ast.Pass):
                 continue
             if isinstance(st, ast.Return):
-                return ("ret", self.expr(st.value, env) if st.value is not None else NONE, env)
+                v = self.expr(st.value, env) if st.value is not None else NONE
+                return ("ret", v, env, list(self.path[n_start:]))
             if isinstance(st, ast.Raise):
                 exc = st.exc.func if isinstance(st.exc, ast.Call) else st.exc
                 if exc is None:
@@ -267,40 +364,48 @@ class Ev:
                 return ("cont", env)
             if isinstance(st, ast.If):
                 c = self.expr(st.test, env)
-                rest = stmts[idx + 1:]
-                return self.branch(c, st.body, st.orelse, rest, env)
+                before = list(self.path[n_start:])
+                return self.add_extra(self.branch(c, st.body, st.orelse, stmts[idx + 1:], env),
+                                      before)
             self.simple(st, env)
-        return ("fall", env)
+        return ("fall", env, list(self.path[n_start:]))
+
+    def add_extra(self, tree, lits):
+        if not lits:
+            return tree
+        if tree[0] == "fall":
+            return ("fall", tree[1], lits + tree[2])
+        if tree[0] == "ret":
+            return ("ret", tree[1], tree[2], lits + tree[3])
+        if tree[0] == "node":
+            return ("node", tree[1], self.add_extra(tree[2], lits), self.add_extra(tree[3], lits))
+        return tree
+
+    def scoped(self, lits, stmts, env):
+        """run a block under additional path literals; they are removed afterwards"""
+        n0 = len(self.path)
+        self.path += lits
+        out = self.block(stmts, env)
+        del self.path[n0:]
+        return out
 
     def branch(self, c, body, orelse, rest, env):
         if c[0] == "c":
             return self.block((body if c[1] else orelse) + rest, env)
-        n0 = len(self.path)
-        self.path += literals(c, True)
-        ta = self.block(body, env)
-        del self.path[n0:]
-        self.path += literals(c, False)
-        tb = self.block(orelse, env)
-        del self.path[n0:]
-        if ta[0] == "fall" and tb[0] == "fall":
-            return self.block(rest, self.merge(c, ta[1], tb[1])) if rest else \
-                ("fall", self.merge(c, ta[1], tb[1]))
+        ta = self.scoped(literals(c, True), body, env)
+        tb = self.scoped(literals(c, False), orelse, env)
         node = ("node", c, ta, tb)
         if not self.has_leaf(node, ("ret", "cont")):
-            # the other leaves only raise: the falling paths are merged (x = if c then .. else ..)
-            # and the rest runs ONCE, under the literals common to all falling paths
+            # no branch returns: the falling paths are merged (x = if c then .. else ..) and the
+            # rest runs ONCE, under the literals common to all falling paths (guard clauses)
             env2 = self.tree_env(node)
             if env2 is None:
                 return ("raise",)
-            paths = self.fall_paths(node, [])
+            paths = self.done_paths(node, [])
             common = [l for l in paths[0] if all(l in q for q in paths[1:])]
             if not rest:
-                return ("fall", env2)
-            n0 = len(self.path)
-            self.path += common
-            out = self.block(rest, env2)
-            del self.path[n0:]
-            return out
+                return ("fall", env2, common)
+            return self.add_extra(self.scoped(common, rest, env2), common)
         # a branch returns: continue the rest on every falling leaf, under its condition
         ta = self.cont(ta, rest, literals(c, True))
         tb = self.cont(tb, rest, literals(c, False))
@@ -311,23 +416,22 @@ class Ev:
             return self.has_leaf(tree[2], kinds) or self.has_leaf(tree[3], kinds)
         return tree[0] in kinds
 
-    def fall_paths(self, tree, lits):
+    def done_paths(self, tree, lits):
+        """literal lists of the normally completing leaves (falling or returning)"""
         if tree[0] == "fall":
-            return [lits]
+            return [lits + tree[2]]
+        if tree[0] == "ret":
+            return [lits + tree[3]]
         if tree[0] == "node":
-            return self.fall_paths(tree[2], lits + literals(tree[1], True)) + \
-                self.fall_paths(tree[3], lits + literals(tree[1], False))
+            return self.done_paths(tree[2], lits + literals(tree[1], True)) + \
+                self.done_paths(tree[3], lits + literals(tree[1], False))
         return []
 
     def cont(self, tree, rest, lits):
         if tree[0] == "fall":
             if not rest:
                 return tree
-            n0 = len(self.path)
-            self.path += lits
-            out = self.block(rest, tree[1])
-            del self.path[n0:]
-            return out
+            return self.add_extra(self.scoped(lits + tree[2], rest, tree[1]), tree[2])
         if tree[0] == "node":
             return ("node", tree[1], self.cont(tree[2], rest, lits + literals(tree[1], True)),
                     self.cont(tree[3], rest, lits + literals(tree[1], False)))
@@ -381,7 +485,7 @@ class Ev:
             if is_term(v) and v[0] in ("t", "l") and len(v[1]) == len(tg.elts):
                 parts = v[1]
             else:
-                parts = [("i", v, C(k)) for k in range(len(tg.elts))]
+                parts = [simp1(("i", v, C(k))) for k in range(len(tg.elts))]
             for e, p in zip(tg.elts, parts):
                 self.assign(e, p, env)
         elif isinstance(tg, ast.Attribute) and isinstance(tg.value, ast.Name):
@@ -423,15 +527,19 @@ class Ev:
             raise Unsupported("for ... else")
         it = self.expr(st.iter, env)
         bid = fresh()
+        target_binding = self.iter_binding(st.target, it, bid)
+        it = target_binding[0]
         assigned = self.assigned(st.body)
         carried = [v for v in assigned if v in env and is_term(env[v]) and env[v] != POISON]
         fid = fresh()
         body_env = dict(env)
         for k, v in enumerate(carried):
             body_env[v] = ("st", fid, k)
-        self.bind_target(st.target, ("bv", bid), body_env)
+        target_binding[1](body_env)
         n_raises = len(self.raises)
+        n_path = len(self.path)
         benv = self.tree_env(self.block(st.body, body_env))
+        del self.path[n_path:]
         if len(self.raises) != n_raises or benv is None:
             raise Unsupported("raise inside a loop body")
         outs = [benv[v] for v in carried]
@@ -473,8 +581,9 @@ class Ev:
         renum = {("st", fid, k): ("st", fid, j) for j, k in enumerate(order)}
         fold = None
         if order:
-            fouts = tuple(subst(subst(outs[k], pre), renum) for k in order)
-            fold = ("fold", bid, it, tuple(env[carried[k]] for k in order), fouts, fid)
+            fouts = [subst(subst(outs[k], pre), renum) for k in order]
+            fit, fouts = to_element(bid, it, fouts)
+            fold = ("fold", bid, fit, tuple(env[carried[k]] for k in order), tuple(fouts), fid)
         for k, v in enumerate(carried):
             s = shapes[k]
             if k in state:
@@ -497,6 +606,26 @@ class Ev:
         for n in ast.walk(st.target):
             if isinstance(n, ast.Name):
                 env[n.id] = POISON
+
+    def iter_binding(self, target, it, bid):
+        """(iterated term, function binding the loop target in an environment)
+           `for i, x in enumerate(A)` is the index loop over range(len(A)) with x = A[i]"""
+        if it[0] == "call" and it[1] == ("s", "enumerate") and len(it[2]) == 1 and not it[3] \
+                and isinstance(target, (ast.Tuple, ast.List)) and len(target.elts) == 2:
+            a = it[2][0]
+
+            def bind(env):
+                self.bind_target(target.elts[0], ("bv", bid), env)
+                self.bind_target(target.elts[1], simp1(("i", a, ("bv", bid))), env)
+            return ("call", RANGE, (mklen(a),), ()), bind
+        if it[0] == "call" and it[1] in (("s", "enumerate"), ("s", "zip"), ("s", "reversed")):
+            raise Unsupported("iteration over " + show(it)[:80])
+        if not (it[0] == "call" and it[1] == RANGE):
+            BV_ITER[bid] = it
+
+        def bind(env):
+            self.bind_target(target, ("bv", bid), env)
+        return it, bind
 
     def bind_target(self, tg, v, env):
         if isinstance(tg, ast.Name):
@@ -585,7 +714,7 @@ class Ev:
             if base[0] in ("t", "l") and idx[0] == "c" and isinstance(idx[1], int) \
                     and -len(base[1]) <= idx[1] < len(base[1]):
                 return base[1][idx[1]]
-            return ("i", base, idx)
+            return simp1(("i", base, idx))
         if isinstance(e, ast.Tuple):
             return ("t", tuple(self.expr(x, env) for x in e.elts))
         if isinstance(e, ast.List):
@@ -640,12 +769,15 @@ class Ev:
         if len(e.generators) != 1 or e.generators[0].is_async:
             raise Unsupported("comprehension with several generators " + ast.unparse(e))
         g = e.generators[0]
-        it = self.expr(g.iter, env)
         bid = fresh()
+        it, bind = self.iter_binding(g.target, self.expr(g.iter, env), bid)
         en = dict(env)
-        self.bind_target(g.target, ("bv", bid), en)
+        bind(en)
+        n_path = len(self.path)
         conds = tuple(self.expr(c, en) for c in g.ifs)
-        return mkcomp(bid, self.expr(e.elt, en), it, conds)
+        elt = self.expr(e.elt, en)
+        del self.path[n_path:]
+        return mkcomp(bid, elt, it, conds)
 
     def make_lambda(self, args, body, env):
         if args.vararg or args.kwarg or args.kwonlyargs or args.defaults:
@@ -657,7 +789,10 @@ class Ev:
             ids.append(i)
             en[a.arg] = ("bv", i)
             self.bvnames[a.arg] = i
-        return ("lam", tuple(ids), body(en))
+        n_path = len(self.path)
+        out = body(en)
+        del self.path[n_path:]
+        return ("lam", tuple(ids), out)
 
     def method_as_lambda(self, name, env):
         fn = self.methods[name]
@@ -717,7 +852,13 @@ class Ev:
             if k.startswith("self.") or k == "@eff":
                 en[k] = v
         en.update(bound)
+        n_path = len(self.path)
         tree = self.block(fn.body, en)
+        del self.path[n_path:]
+        paths = self.done_paths(tree, [])
+        if paths:
+            # guards of the helper that every normal completion has passed stay in force
+            self.path += [l for l in paths[0] if all(l in q for q in paths[1:])]
         ret, fenv = self.finish(tree)
         self.stack.pop()
         if fenv is not None:
@@ -753,6 +894,21 @@ class Ev:
         if isinstance(f, ast.Name) and f.id == "len" and len(args) == 1 and args[0][0] in ("t", "l"):
             return C(len(args[0][1]))
         ft = self.expr(f, env)
+        if ft[0] == "a" and ft[1] == ("s", "np") and ft[2] in NP_SIGS and kws:
+            # keyword vs positional passing of the leading numpy parameters
+            names = NP_SIGS[ft[2]]
+            given = {k: v for _, k, v in kws}
+            args = list(args)
+            while len(args) < len(names) and names[len(args)] in given:
+                args.append(given.pop(names[len(args)]))
+            args = tuple(args)
+            kws = tuple(sorted(("kw", k, v) for k, v in given.items()))
+        if ft[0] == "a" and ft[2] in METHOD_SIGS and args and len(args) <= len(METHOD_SIGS[ft[2]]):
+            # positional vs keyword passing of the leading parameters of pandas methods
+            names = METHOD_SIGS[ft[2]]
+            if not any(k in names[:len(args)] for _, k, _v in kws):
+                kws = tuple(sorted(list(kws) + [("kw", n, a) for n, a in zip(names, args)]))
+                args = ()
         if ft[0] == "lam":
             if kws:
                 raise Unsupported("keywords to a lambda")
